@@ -132,6 +132,76 @@ FIRST_MISSED2 = {
 }
 
 
+NEEDS3 = {
+    "C01-R3A": "untyped lru_cache on Color parsing: (1,1,1) / (1.0,1.0,1.0) / (True,True,True) share an entry; a 0/1 tuple background after its equal twin of the other type",
+    "C01-R3B": "success overwritten from the AA/AAA badge in the show/save_report path: very_readable + show/save_report and a result between AA and AAA",
+    "C02-R3A": "lru_cache(color_input, bg_rgb) conflates hash-equal int/float 0-1 tuples (also through the optimiser's re-parse of resolved RGB triples)",
+    "C02-R3B": "number regex without the leading-dot form: alpha written '.8' becomes 8% and the text is composited with the wrong alpha",
+    "C03-R3A": "hue-drift guard without wrap-around in binary_search_lightness: text hues on the 0/360 seam (#660033, #ff0088, palevioletred); ~2 per million random inputs",
+    "C03-R3B": "per-call bulk de-duplication keyed on (str(text), str(bg)) without the size flag: same colours twice in one list at both sizes, normal first",
+    "C04-R3A": "dE routine keeps a reference to its last first-argument object: a list overwritten in place between two back-to-back calls of a search routine",
+    "C04-R3B": "--mode not forwarded to rules nested in @media/@supports: only cm-colors --mode 0 on nested rules that mode 1 moves further than dE 5",
+    "C05-R3A": "bulk size flag leaks to later 2-element entries: mixed-shape list with a (..,True) entry before a 2-element one whose contrast is between thresholds",
+    "C05-R3B": "one-entry memo of the last background keeps the caller's list object: same list overwritten in place and passed again in the very next call",
+    "C06-R3A": "format table keyed on exact type: tuple/list subclasses (namedtuple colours) come back as hex",
+    "C06-R3B": "warnings.warn in the hex-default branch of format_color + the blanket except in make_readable: with warnings escalated to errors rgba/hsla/RGBA-tuple inputs lose hex output",
+    "C07-R3A": "parse cache key drops all whitespace: informal '10 20 30' then bare hex '102030' (same digits) in one process",
+    "C07-R3B": "number regex loses the leading-dot form: rgba(0,0,0,.5) read as 5%",
+    "C08-R3A": "first declaration wins (next()) instead of last: rules declaring color/background-color twice with different values",
+    "C08-R3B": "custom-property table moved out of the per-file loop: directory run, later file uses var(--x) only an earlier file defines",
+    "C09-R3A": "click.Path(resolve_path=True): a symlink argument writes the output beside the link target, not beside the given path",
+    "C09-R3B": "rewritten colour value replaces the whole value: a comment inside an adjusted colour value is dropped (regression of repair eb7d0fa)",
+    "C10-R3A": "memo on oklch_to_rgb_safe keyed on rounded (L,C,H): two different valid triples sharing a key across an 8-bit rounding boundary",
+    "C10-R3B": "is_valid_rgb tightened to ints: float-typed integral channels (200.0,30.0,30.0) make the safe variant return the grey fallback (judged outside the property, see DESIGN)",
+    "C11-R3A": "dE routine keeps a reference to its last first-argument object: same list changed in place between consecutive calls",
+    "C11-R3B": "bounded Lab cache keyed with radix 255: (r,g,255)/(r,g+1,0) collide, e.g. chartreuse/maroon; 0 deviations in 300k random inputs",
+    "C12-R3A": "per-call cache keyed on the raw arguments: (1,0,0) and (1.0,0.0,0.0) in one list share an entry",
+    "C12-R3B": "len(list(pairs)) pre-pass with save_report=True: a one-shot iterator (zip/generator) is exhausted and [] returned",
+    "C13-R3A": "number regex loses the leading-dot form: alpha '.5' becomes 5%, '.1' becomes 100%, '.125' invalid",
+    "C13-R3B": "lru_cache(color_input, bg_rgb): int 0/1 tuple parsed first (even indirectly via #010100), then the equal float tuple as background is served as near-black",
+    "C14-R3A": "int(hex_str, 16) accepts a sign: '#-12345' valid with a negative channel; make_readable / bulk then raise",
+    "C14-R3B": "bulk reuses the previous answer when item == previous item: adjacent entries equal under == but of different validity ((300,1.0,1.0) vs (300,1,1))",
+    "C15-R3A": "memo keyed on (str(color), str(background)): tuple (0.6,0.6,0.6) and the string '(0.6, 0.6, 0.6)' mean different colours",
+    "C15-R3B": "lazily filled linearisation table, not thread-safe: first luminance-using calls in a fresh interpreter issued by several threads at once",
+    "C16-R3A": "mode 2 returns its one-shot relaxed search first when within dE 2.0: near-black text on mid greys where 7:1 is unreachable (mode 1 stops earlier)",
+    "C16-R3B": "per-object memo keyed on (mode, very_readable) only: make_readable, then pair.large = True, then mode 1 (stale) vs mode 2 (fresh)",
+    "C17-R3A": "len(list(pairs)) pre-pass with save_report=True: one-shot iterables return [] and write no report",
+    "C17-R3B": "sys.stdout.encoding read in the preview: show=True raises when sys.stdout is None or a write/flush-only object",
+    "C18-R3A": "variable table cleared only after a successful write: a stylesheet whose output path is blocked leaks its custom properties into the next file",
+    "C18-R3B": "with_name(stem+'_cm').with_suffix(suffix): dotted stems write theme.css, overwrite siblings and compound",
+    "C19-R3A": "escape-only-if-needed regex without DOTALL: multi-line values whose first line is clean reach the CLI report raw",
+    "C19-R3B": "'&amp;' turned back into '&' unless followed by '#' or 'name;': legacy entity names without semicolon (&copy, &lt, &sect) are decoded by parsers",
+}
+FIRST_MISSED3 = {
+    "C01-R3A": "alias cases (int / float / bool 0-1 tuples as text and background, back to back) in every pair workload",
+    "C01-R3B": "C01 'flags' shard: verdicts judged under show / save_report (C17 caught it as it was)",
+    "C02-R3A": "alias cases in every pair workload",
+    "C02-R3B": "leading-dot alphas ('.5', '.8') among the translucent spellings",
+    "C03-R3B": "bulk route: witness pair as an entry after its twin at the other text size",
+    "C04-R3A": "search routines called back to back with the same list object overwritten in place",
+    "C04-R3B": "CLI strict shard: cm-colors --mode 0 on generated sheets, every card's dE judged (nested and top level)",
+    "C05-R3A": "bulk lists mixing 2- and 3-element entries, each entry labelled at its own size",
+    "C05-R3B": "ratio called back to back with the same list objects overwritten in place",
+    "C06-R3A": "namedtuple / tuple-subclass / list-subclass spellings",
+    "C06-R3B": "a shard of the format workload runs with warnings escalated to errors",
+    "C07-R3A": "whitespace look-alikes parsed back to back ('10 20 30' / '102030', '1 2 3' / '123')",
+    "C09-R3A": "single-file argument that is a symbolic link to a stylesheet kept elsewhere",
+    "C09-R3B": "comments inside colour values in generated sheets; comments inside a changed value must be preserved (this also exposed a genuine defect, repaired in eb7d0fa)",
+    "C12-R3A": "alias entries (int / float / bool 0-1 tuples) next to each other in one list",
+    "C12-R3B": "the same entries as a one-shot generator / zip, with and without save_report",
+    "C13-R3B": "alias backgrounds: the equal twin parsed first (also indirectly through a hex colour being fixed)",
+    "C14-R3A": "'#' followed by signs, blanks, underscores, prefixes",
+    "C14-R3B": "equal-comparing retyped twins adjacent in one bulk list, both orders",
+    "C15-R3A": "probes whose tuple has a str() that is itself a legal colour string; those strings issued in the history",
+    "C15-R3B": "fresh interpreters whose first library calls come from 16 threads at once, with yield injection",
+    "C16-R3A": "'saturating' pair class: the fix has to go almost to black / white",
+    "C16-R3B": "half of the pair cases reuse one ColorPair object and switch its large attribute between calls",
+    "C17-R3A": "bulk save_report with a zip() input",
+    "C17-R3B": "flag calls under a write/flush-only stdout and under sys.stdout = None",
+    "C18-R3A": "fault kind 'blocked-output' (valid sheet defining the shared properties whose output path is a directory) + direct colours on backgrounds only another file defines",
+}
+
+
 def archive(key, pid, src, v, needs, missed):
     if not os.path.exists(os.path.join(src, v + ".diff")):
         print(key, "missing deliverables")
@@ -171,6 +241,37 @@ def archive(key, pid, src, v, needs, missed):
 
 def main():
     want = sys.argv[1:]
+    if want and want[0] == "round3":
+        for key in sorted(NEEDS3):
+            if len(want) > 1 and key not in want[1:]:
+                continue
+            pid, v = key.split("-R3")
+            archive(key, pid, os.path.join("/tmp/seed3", pid + ".out"), v, NEEDS3[key], FIRST_MISSED3.get(key))
+        return
+    if want and want[0] == "regress":
+        # re-confirm every archived change against the current checks (after workloads were widened)
+        for key in sorted(os.listdir(os.path.join(HERE, "seeded"))):
+            if len(want) > 1 and key not in want[1:]:
+                continue
+            d = os.path.join(HERE, "seeded", key)
+            mp = os.path.join(d, "meta.json")
+            if not os.path.exists(mp):
+                continue
+            meta = json.load(open(mp))
+            pid = meta["breaks_property"]
+            p = subprocess.run([os.path.join(HERE, "tools", "seedcheck.sh"), pid, os.path.join(d, "patch.diff"), os.path.join(d, "demo.py")],
+                               stdout=subprocess.PIPE, stderr=subprocess.STDOUT, text=True)
+            if os.path.exists(os.path.join(d, "patch.diff.rebased")):
+                os.replace(os.path.join(d, "patch.diff.rebased"), os.path.join(d, "patch.diff"))
+            chk = re.search(r"check (C\d+) (\w+) on changed tree: rc=(\d+) :: (.*)", p.stdout)
+            tests = re.search(r"tests\(with change\): (.*)", p.stdout)
+            meta["reconfirmed"] = {"repo_head": subprocess.run(["git", "-C", "/repo", "rev-parse", "--short", "HEAD"], stdout=subprocess.PIPE, text=True).stdout.strip(),
+                                   "tests_with_change": tests.group(1) if tests else None,
+                                   "check_rc_on_changed_tree": int(chk.group(3)) if chk else None, "first_violation_line": chk.group(4)[:300] if chk else None}
+            meta["caught"] = bool(chk and chk.group(3) == "1")
+            json.dump(meta, open(mp, "w"), indent=1)
+            print(key, "tests:", meta["reconfirmed"]["tests_with_change"], "check rc:", meta["reconfirmed"]["check_rc_on_changed_tree"], flush=True)
+        return
     if want and want[0] == "round2":
         for key in sorted(NEEDS2):
             if len(want) > 1 and key not in want[1:]:
